@@ -71,7 +71,10 @@ type targetPanic struct {
 	v       value
 	runtime bool
 	where   string
+	logged  bool
 }
+
+var debugPanics = os.Getenv("VERIF_DEBUG_PANICS") != ""
 
 type killedPanic struct{}
 
@@ -255,7 +258,7 @@ func (fr *frame) pos() string {
 
 func (fr *frame) stack() string {
 	var sb strings.Builder
-	for f := fr; f != nil; f = f.caller {
+	for f := fr; f != nil && f.fn != nil; f = f.caller {
 		p := ""
 		if f.curInstr != nil {
 			p = fr.i.prog.Fset.Position(f.curInstr.Pos()).String()
@@ -600,6 +603,10 @@ func runFrame(fr *frame) {
 			if tp.runtime {
 				tp.where = fr.pos() + " in " + fr.fn.String()
 			}
+		}
+		if debugPanics && !tp.logged {
+			tp.logged = true
+			fmt.Fprintf(os.Stderr, "target panic: %s at %s\n%s", panicText(fr.i.run, tp), tp.where, fr.stack())
 		}
 		fr.panicking = true
 		fr.panic = tp
